@@ -101,8 +101,10 @@ def _extra_strings(rng, n):
                 cur += k + 1
             s = rng.choice([b"", b":", b"/"]) + rng.choice([b".", b"/"]).join(el)
             out.append(s[:rng.randint(250, 260)])
-        elif r < 0.4:
+        elif r < 0.33:
             out.append(gen.deep_signature(rng))
+        elif r < 0.4:
+            out.append(gen.misnested_signature(rng))
         elif r < 0.5:   # signatures around 255
             out.append(rng.choice([b"i", b"ai", b"(ii)", b"a{sv}"]) * rng.randint(40, 130))
         elif r < 0.6:
